@@ -25,15 +25,21 @@ pub struct Cfg {
     /// ... and whole seconds the virtual clock is advanced between them and
     /// the burst, so that the burst meets a bucket whose refill is due.
     pub gap_s: u64,
+    /// Second clock model: every reading of the clock is this many ns later
+    /// than the previous one (0: time stands still), so threads that read the
+    /// clock in one order and take the bucket lock in the other see times
+    /// that disagree with the order of their updates.
+    pub tick_ns: u64,
 }
 
 impl Cfg {
     pub fn label(&self) -> String {
         let pre = if self.pre > 0 || self.gap_s > 0 { format!(" pre={} gap={}s", self.pre, self.gap_s) } else { String::new() };
-        format!("T={} k={} rate={} window={} slip={} size={}{}", self.threads, self.per_thread, self.rate, self.window, self.slip, self.size, pre)
+        let tick = if self.tick_ns > 0 { format!(" clock+{}ns/read", self.tick_ns) } else { String::new() };
+        format!("T={} k={} rate={} window={} slip={} size={}{}{}", self.threads, self.per_thread, self.rate, self.window, self.slip, self.size, pre, tick)
     }
     pub fn to_json(&self) -> Value {
-        json!({"threads": self.threads, "requests_per_thread": self.per_thread, "rate": self.rate, "window": self.window, "slip": self.slip, "table_size": self.size, "sequential_requests_before": self.pre, "idle_seconds_before_burst": self.gap_s})
+        json!({"threads": self.threads, "requests_per_thread": self.per_thread, "rate": self.rate, "window": self.window, "slip": self.slip, "table_size": self.size, "sequential_requests_before": self.pre, "idle_seconds_before_burst": self.gap_s, "clock_advance_per_reading_ns": self.tick_ns})
     }
 }
 
@@ -46,8 +52,17 @@ pub fn configs(quick: bool) -> Vec<Cfg> {
                     if quick && (size == 7 && !(threads == 2 && per_thread == 2)) {
                         continue;
                     }
-                    v.push(Cfg { threads, per_thread, rate, window, slip, size, pre: 0, gap_s: 0 });
+                    v.push(Cfg { threads, per_thread, rate, window, slip, size, pre: 0, gap_s: 0, tick_ns: 0 });
                 }
+            }
+        }
+    }
+    // Second clock model: the clock advances by 1 us with every reading.
+    for (threads, per_thread) in [(2usize, 1usize), (2, 2), (3, 1)] {
+        for (rate, window) in [(1u32, 1u32), (1, 3), (2, 2)] {
+            let cap = (rate * window) as usize;
+            for pre in [0usize, cap] {
+                v.push(Cfg { threads, per_thread, rate, window, slip: 0, size: 1, pre, gap_s: 0, tick_ns: 1_000 });
             }
         }
     }
@@ -61,7 +76,7 @@ pub fn configs(quick: bool) -> Vec<Cfg> {
                     if quick && slip == 1 && threads == 3 {
                         continue;
                     }
-                    v.push(Cfg { threads, per_thread, rate, window, slip, size: 1, pre, gap_s });
+                    v.push(Cfg { threads, per_thread, rate, window, slip, size: 1, pre, gap_s, tick_ns: 0 });
                 }
             }
         }
@@ -79,6 +94,7 @@ enum Obs {
 
 pub fn body(cfg: &Cfg) -> ExecReport {
     mcshim::reset();
+    mcshim::set_tick_ns(cfg.tick_ns);
     let mut server = Server::new(Arc::new(srv::gen_catalog(1)));
     let mut p = RrlParams::new(cfg.rate, cfg.rate, cfg.rate, cfg.window).unwrap();
     p.set_slip(cfg.slip);
